@@ -92,6 +92,33 @@ def okb(case, io, mo):
         if ev is not None and r[1] != ev:
             return False, "numeric part %08x is not the f32 result %08x of the raw operator" % (r[1], ev)
         return True, ""
+    if 1 <= o <= 8 and {a[0], b[0]} in ({"Q", "T"}, {"Q", "D"}):
+        # mixed forms: the Time / integer operand converts to seconds / a dimensionless number, then the Quantity rule applies
+        if io in ([98], [97]) or mo in ([98], [97]):
+            return True, ""
+        def conv(v):
+            if v[0] == "Q": return v[1], v[2]
+            n = frac_to_f32_bits(v[1])
+            return (fop(4, n, f2b(1e9)), (0, 1)) if v[0] == "T" else (n, (0, 0))
+        (va, ua), (vb, ub) = conv(a), conv(b)
+        base = o - 4 if o >= 5 else o
+        if base in (1, 2):
+            if ua != ub:
+                return (io == [99], "mixed operands with units %s %s differ but no panic" % (ua, ub))
+            exp_u = ua
+        else:
+            exp_u = (ua[0] + ub[0], ua[1] + ub[1]) if base == 3 else (ua[0] - ub[0], ua[1] - ub[1])
+        if io == [99]:
+            return False, "mixed operation panicked on units %s %s" % (ua, ub)
+        r, _ = dec_val(io)
+        if r[0] != "Q":
+            return True, ""
+        if r[2] != exp_u:
+            return False, "mixed form: result unit %s, expected %s" % (r[2], exp_u)
+        ev = fop(base, va, vb)
+        if ev is not None and va is not None and vb is not None and r[1] != ev and not (is_nan_bits(r[1]) and is_nan_bits(ev)):
+            return False, "mixed form: numeric part %08x is not the f32 result %08x of the raw operator on the converted operands" % (r[1], ev)
+        return True, ""
     if a[0] == "U" and b[0] == "U" and 1 <= o <= 8:
         ua, ub = a[1], b[1]
         base = o - 4 if o >= 5 else o
@@ -151,6 +178,17 @@ def gen(rng, tier, cfg, consts):
         for o in range(1, 5):
             add(Op(o, Lit(vT(ri())), Lit(vQ(rb(), *u))), "TQ" + str(o))
             add(Op(o, Lit(vD(ri())), Lit(vQ(rb(), *u))), "DQ" + str(o))
+    # operands that cancel or coincide exactly: the Quantity holds exactly the value the Time / integer converts to
+    # (results +-0, 1, -1: the sign of a zero result is part of "the plain f32 result")
+    for n_ in [0, 1, -1, 2, -2, 5, 1000000000, -1000000000, 3000000000, 500000000, -250000000, 16777216, 123456789, -987654321]:
+        qt = f32_div_bits(f32_of_int_bits(n_), f2b(1e9)); qd = f32_of_int_bits(n_)
+        for sgn in (0, 0x80000000):
+            for o in range(1, 9):
+                add(Op(o, Lit(vQ(qt ^ sgn, 0, 1)), Lit(vT(n_))), "QT%d/cancel" % o)
+                add(Op(o, Lit(vQ(qd ^ sgn, 0, 0)), Lit(vD(n_))), "QD%d/cancel" % o)
+            for o in range(1, 5):
+                add(Op(o, Lit(vT(n_)), Lit(vQ(qt ^ sgn, 0, 1))), "TQ%d/cancel" % o)
+                add(Op(o, Lit(vD(n_)), Lit(vQ(qd ^ sgn, 0, 0))), "DQ%d/cancel" % o)
     for _ in range(60):
         for o in range(1, 9):
             add(Op(o, Lit(vT(ri())), Lit(vT(ri()))), "TT" + str(o))
